@@ -5,14 +5,22 @@
 EXTENDS ThreadPool, TLC, Json, IOUtils, SequencesExt
 CONSTANTS MaxItems, MaxThreads
 Model == UNION {{[n |-> n, threads |-> t, haslen |-> h, style |-> s, out |-> o, kinds |-> [i \in 1..n |-> "ok"],
-                    workers |-> Workers(n, t, h)] :
+                    pauses |-> <<>>, workers |-> Workers(n, t, h)] :
                    t \in 1..MaxThreads, h \in BOOLEAN, s \in {"gen", "ret"}, o \in [1..n -> 0..2]} : n \in 0..MaxItems}
 (* the worker of metadata regeneration (operations/regen.py regen_iter): per package the
    regeneration succeeds ("ok": no result), hits broken metadata ("meta": MetadataException,
    handled elsewhere, no result) or fails otherwise ("err": one result, the pair (pkg, error)) *)
 Regen == UNION {{[n |-> n, threads |-> t, haslen |-> h, style |-> "regen",
-                  out |-> [i \in 1..n |-> IF k[i] = "err" THEN 1 ELSE 0], kinds |-> k, workers |-> Workers(n, t, h)] :
+                  out |-> [i \in 1..n |-> IF k[i] = "err" THEN 1 ELSE 0], kinds |-> k, pauses |-> <<>>,
+                  workers |-> Workers(n, t, h)] :
                    t \in 1..MaxThreads, h \in BOOLEAN, k \in [1..n -> {"ok", "meta", "err"}]} : n \in 0..MaxItems}
-Cases == Model \cup Regen
+(* a producer slower than the consumers: the input iterable pauses (for longer than any polling
+   interval a worker might use) before handing out item p -- p = n + 1: before it ends --, so
+   that every worker finds the queue empty for a while, at every position, for every thread
+   count; each item yields one result *)
+Slow == UNION {{[n |-> n, threads |-> t, haslen |-> h, style |-> "gen", out |-> [i \in 1..n |-> 1],
+                 kinds |-> [i \in 1..n |-> "ok"], pauses |-> <<p>>, workers |-> Workers(n, t, h)] :
+                   t \in 1..MaxThreads, h \in BOOLEAN, p \in 1..(n + 1)} : n \in 1..MaxItems}
+Cases == Model \cup Regen \cup Slow
 ASSUME ndJsonSerialize(IOEnv.OUT, SetToSeq(Cases))
 =========================================================================
